@@ -56,6 +56,7 @@ func (c cfgSpec) from() *fromSpec {
 func (c cfgSpec) withLists(f fromSpec) cfgSpec {
 	c.Global, c.A, c.B, c.Admin, c.Deploy = f.Global, f.A, f.B, f.Admin, f.Deploy
 	c.Reload, c.From, c.Refused = false, nil, false
+	c.Restart, c.Rename = "", ""
 	return c
 }
 
@@ -95,7 +96,7 @@ func (c cfgSpec) history() string {
 // expectApplied: docs/configuration.md — token edits are applied live, another deployment needs a restart.
 func (c cfgSpec) expectApplied() bool {
 	f := c.from()
-	return f != nil && f.Deploy == c.Deploy
+	return f != nil && f.Deploy == c.Deploy && c.Restart == ""
 }
 
 func sameList(a, b []string) bool {
